@@ -202,6 +202,10 @@ func sessConfig(name string) (cfg perso.Config, live bool, ok bool) {
 		return perso.Config{BAC: true, CA: []perso.CASpec{{Curve: "P-256", Cipher: 2, KeyID: one()}}}, true, true
 	case "ca3":
 		return perso.Config{BAC: true, CA: []perso.CASpec{{Curve: "brainpoolP256r1", Cipher: 1, NoInfo: true}}}, true, true
+	case "ca192":
+		return perso.Config{BAC: true, CA: []perso.CASpec{{Curve: "P-256", Cipher: 3, KeyID: one()}}}, true, true
+	case "ca256":
+		return perso.Config{BAC: true, CA: []perso.CASpec{{Curve: "brainpoolP384r1", Cipher: 4, KeyID: one()}}}, true, true
 	case "cam":
 		return perso.Config{PACE: camP256}, true, true
 	case "cambp":
@@ -273,7 +277,7 @@ func buildSess(name string) (*sess, error) {
 		hasCAM := ss.PaceCamResult != nil && ss.PaceCamResult.Success && ss.PaceCamResult.Evidence != nil
 		hasAA := ss.ActiveAuthResult != nil && ss.ActiveAuthResult.Success && ss.ActiveAuthResult.Evidence != nil
 		for _, e := range []error{
-			okM(name == "ca" || name == "ca3", hasCA, "CA"),
+			okM(name == "ca" || name == "ca3" || name == "ca192" || name == "ca256", hasCA, "CA"),
 			okM(name == "cam" || name == "cambp" || name == "full", hasCAM, "PACE-CAM"),
 			okM(name == "aarsa" || name == "aaec" || name == "aaecbp" || name == "full", hasAA, "AA"),
 		} {
@@ -462,9 +466,9 @@ func (co *corpusT) describe() []string {
 
 // sessionsUsed lists the sessions every worker builds up front.
 func sessionsUsed(thorough bool) []string {
-	l := []string{"ca", "cam", "aarsa", "aaec", "full", "rich", "pa-rsa", "pa-ec", "pa-pss"}
+	l := []string{"ca", "ca3", "ca192", "ca256", "cam", "aarsa", "aaec", "full", "rich", "pa-rsa", "pa-ec", "pa-pss"}
 	if thorough {
-		l = append(l, "ca3", "cambp", "aaecbp", "pa-bp")
+		l = append(l, "cambp", "aaecbp", "pa-bp")
 	}
 	return l
 }
